@@ -115,6 +115,10 @@ def gridCommon (g : GridSpec) : List String :=
   let areas := match g with
     | .mesh _ _ _ a => a.toList
     | _ => List.replicate n g.area
+  (match g with
+    | .raster r _ => [line "spacing" (joinF [r.dy, r.dx])]
+    | .profile _ dx _ _ => [line "spacing" (joinF [dx])]
+    | _ => []) ++
   [ line "size" (toString n), line "nmax" (toString g.nmax),
     line "status" (joinNats g.status.toList),
     line "area" (joinF areas), line "area_views_agree" "1" ]
